@@ -274,6 +274,7 @@ func cmdCheck(args []string) int {
 			funcsUnder = append(funcsUnder, sp.PkgPath[len(modulePath):]+"::"+sp.Key)
 		}
 		solveAll(c, c.obls, opts)
+		secondChance(c, c.obls, opts)
 		for a := range c.assume {
 			assumptions[a] = true
 		}
